@@ -475,8 +475,20 @@ static void silenceStdout() {
   if (dn >= 0) { dup2(dn, 1); close(dn); }
 }
 
+// On timeout the child prints where it is before dying of SIGALRM, so that the parent can tell the known
+// slow solver (KF-C07-1) from an unknown hang.
+extern "C" void __sanitizer_print_stack_trace(void) __attribute__((weak));
+static void onAlarm(int) {
+  const char m[] = "TIMEOUT stack:\n";
+  if (write(2, m, sizeof m - 1) < 0) {}
+  if (__sanitizer_print_stack_trace) __sanitizer_print_stack_trace();
+  signal(SIGALRM, SIG_DFL);
+  raise(SIGALRM);
+}
+
 static void runFlow(const Case &cs, std::ostream &os) {
   silenceStdout();
+  signal(SIGALRM, onAlarm);
   Circuit c = cs.spec.build();
   long long nCb = 0;
   std::optional<PlacementCallback> cb;
@@ -503,8 +515,9 @@ static std::string summarize(const std::string &diag) {
   while (std::getline(is, ln)) {
     bool key = ln.find("Assertion") != std::string::npos || ln.find("runtime error") != std::string::npos ||
                ln.find("ERROR: AddressSanitizer") != std::string::npos || ln.find("SUMMARY") != std::string::npos ||
-               ln.find("terminate called") != std::string::npos || ln.find("what():") != std::string::npos;
-    bool frame = ln.find("    #") == 0 && frames < 8 && ln.find("/repo") != std::string::npos;
+               ln.find("terminate called") != std::string::npos || ln.find("what():") != std::string::npos ||
+               ln.find("TIMEOUT stack") != std::string::npos;
+    bool frame = ln.find("    #") == 0 && frames < 8 && ln.find("coloquinte::") != std::string::npos;
     if (frame) ++frames;
     if (key || frame) {
       if (out.size() < 1800) out += ln.substr(0, 300) + " | ";
@@ -532,10 +545,11 @@ struct Rec {
   std::string stage, id, counts, fate, what, input, ops, impl, sample;
   uint64_t nontrivialHash = 0;
   double seconds = 0;
+  std::string kf;
 };
 static void writeRec(std::ostream &os, const Rec &r) {
   os << r.k << FS << r.stage << FS << r.id << FS << r.counts << FS << r.fate << FS << r.what << FS << r.input << FS << r.ops
-     << FS << r.impl << FS << r.sample << FS << r.nontrivialHash << FS << r.seconds << RS;
+     << FS << r.impl << FS << r.sample << FS << r.nontrivialHash << FS << r.seconds << FS << r.kf << RS;
   os.flush();
 }
 static std::vector<Rec> readRecs(const std::string &path) {
@@ -563,6 +577,7 @@ static std::vector<Rec> readRecs(const std::string &path) {
     r.k = atoll(fl[0].c_str()); r.stage = fl[1]; r.id = fl[2]; r.counts = fl[3]; r.fate = fl[4]; r.what = fl[5];
     r.input = fl[6]; r.ops = fl[7]; r.impl = fl[8]; r.sample = fl[9]; r.nontrivialHash = strtoull(fl[10].c_str(), nullptr, 10);
     if (fl.size() > 11) r.seconds = atof(fl[11].c_str());
+    if (fl.size() > 12) r.kf = fl[12];
     out.push_back(r);
   }
   return out;
@@ -578,11 +593,16 @@ static Rec flowRecord(const std::string &id, long long k, const Case &cs, int ti
   auto t0 = std::chrono::steady_clock::now();
   std::string fate = vh::isolated([&](std::ostream &os) { runFlow(cs, os); }, output, timeout, &diag);
   bool retried = false;
-  if (fate == "timeout") {
-    // slow is not the same as non-terminating (ASan costs 10-20x and the machine may be loaded): a timeout is only
-    // reported if the case also exceeds eight times the budget
+  // KF-C07-1: TransportationSuccessiveShortestPath moves one unit of demand per augmentation on some instances, so
+  // its running time grows with the demand magnitude (cell areas up to 2^31): minutes for a 9-cell circuit at 2^22.
+  // It terminates; it is classified by where the child is when the budget expires.
+  bool slowSolver = fate == "timeout" && diag.find("TransportationSuccessiveShortestPath::") != std::string::npos;
+  if (fate == "timeout" && !slowSolver) {
+    // slow is not the same as non-terminating (ASan costs 10-20x and the machine may be loaded): any other timeout is
+    // only reported if the case also exceeds eight times the budget
     retried = true;
     fate = vh::isolated([&](std::ostream &os) { runFlow(cs, os); }, output, 8 * timeout, &diag);
+    slowSolver = fate == "timeout" && diag.find("TransportationSuccessiveShortestPath::") != std::string::npos;
   }
   r.fate = fate;
   std::ostringstream cnt;
@@ -600,7 +620,8 @@ static Rec flowRecord(const std::string &id, long long k, const Case &cs, int ti
   }
   if (fate != "ok") {
     std::string sum = summarize(diag);
-    std::string tag = knownTag(sum);
+    std::string tag = slowSolver ? "KF-C07-1_slow_transportation_solver" : knownTag(sum);
+    if (slowSolver) r.kf = "KF-C07-1";
     cnt << ",flow_fault_" << tag;
     r.what = "placement entry sequence " + cs.seq + " on a " + cs.kind + "/" + SHAPES[cs.shape] + " circuit ended with " + fate +
              " instead of returning or throwing [" + tag + "]: " + sum;
@@ -775,13 +796,13 @@ static Plan planFor(const vh::Args &a) {
 static const int MBATCH = 500;
 
 static bool parseFlowCase(const std::string &in, Case &cs);
-static std::vector<std::string> corpusFiles(const std::string &dir);
+static std::vector<std::string> corpusFiles(const std::string &dir, bool withSlow);
 
 static void worker(const vh::Args &a, int w, int J, const Plan &pl, const std::string &path) {
   std::ofstream f(path, std::ios::binary);
   // stage C: hand-written / recorded witnesses in the corpus directory
   if (a.only < 0) {
-    std::vector<std::string> files = corpusFiles(a.corpus);
+    std::vector<std::string> files = corpusFiles(a.corpus, a.thorough());
     for (size_t i = w; i < files.size(); i += J) {
       std::ifstream cf(a.corpus + "/" + files[i]);
       std::stringstream ss;
@@ -973,13 +994,15 @@ static bool parseFlowCase(const std::string &in, Case &cs) {
   return parseParams(pline, cs.params) && parseSpec(is, cs.spec);
 }
 
-static std::vector<std::string> corpusFiles(const std::string &dir) {
+static std::vector<std::string> corpusFiles(const std::string &dir, bool withSlow) {
   std::vector<std::string> r;
   if (dir.empty()) return r;
   if (DIR *d = opendir(dir.c_str())) {
     while (dirent *e = readdir(d)) {
       std::string n = e->d_name;
       if (n.size() > 5 && n.substr(n.size() - 5) == ".case") r.push_back(n);
+      // witnesses of the slow-solver finding cost a full timeout each: thorough tier only
+      if (withSlow && n.size() > 7 && n.substr(n.size() - 7) == ".kfcase") r.push_back(n);
     }
     closedir(d);
   }
@@ -1004,9 +1027,12 @@ static int replay(const vh::Args &a, vh::Out &out) {
     std::getline(is, pline);
     if (!parseParams(pline, cs.params) || !parseSpec(is, cs.spec)) { out.notes.push_back("cannot parse replay"); out.finish(); return 2; }
     cs.kind = "replay";
-    Rec r = flowRecord("replay", 0, cs, 600);
+    int tmo = 600;
+    if (const char *e = getenv("C07_TIMEOUT")) tmo = std::max(1, atoi(e));
+    Rec r = flowRecord("replay", 0, cs, tmo);
+    out.count("replay_fate_" + r.fate);
     fprintf(stderr, "replay: %s\n", r.sample.c_str());
-    if (r.fate != "ok") out.fail("replay", r.what, r.input);
+    if (r.fate != "ok") out.fail("replay", r.what, r.input, r.kf);
   } else if (first == "subdiv") {
     Sub s;
     is >> s.mn >> s.mx >> s.number;
@@ -1104,7 +1130,7 @@ int main(int argc, char **argv) {
       size_t a = r.what.find('['), b = r.what.find(']');
       std::string tag = (a != std::string::npos && b != std::string::npos && b > a) ? r.what.substr(a, b - a + 1) : "[untagged]";
       out.count("oracle_fail_" + tag);
-      if (++perTag[tag] <= 25) out.fail(r.id, r.what, r.input);
+      if (++perTag[tag] <= 25) out.fail(r.id, r.what, r.input, r.kf);
     }
   }
   {
